@@ -493,3 +493,193 @@ def untry(b, term):
             return mir.mk_proj(untry(b, q[1][2][0]), (v, "0") + tuple(q[2][2:]))
         return None
     return mir.subst(term, f)
+
+
+# ---------------------------------------------------------------------------------------------
+# iterator pipelines in normal form
+# ---------------------------------------------------------------------------------------------
+_X = ("const", "$x", "?")
+_PASS = ("iter", "into_iter", "iter_mut", "by_ref", "cloned", "copied", "peekable", "fuse")
+
+
+def apply_callable(ctx, c, arg=_X):
+    """the term a one-argument callable (closure literal / fn item) yields for `arg`, in the enclosing function's vocabulary"""
+    if c[0] == "agg" and c[1].startswith("closure:"):
+        cdef = c[1][len("closure:"):]
+        if cdef not in ctx.facts.bodies:
+            return None
+        cb = ctx.ibody(cdef)
+        t = mir.in_closure(ctx.facts, c, cb.return_term())
+        return mir.subst(t, lambda q: arg if q == ("cparam", 1) else None)
+    if c[0] == "fnitem":
+        return ("call", c[1], (arg,), None)
+    return None
+
+
+def _pred_conj(ctx, t):
+    """canonical rendering of a boolean term as a sorted list of conjuncts (comparisons canonically oriented)"""
+    out = []
+
+    def go(q):
+        if q[0] == "phi":
+            out.append(render(q))
+            return
+        c = atoms.cmp_term(q)
+        if c:
+            op, x, y = atoms.canon_cmp(*c)
+            if op in ("eq", "ne"):
+                x, y = sorted((x, y), key=render)
+            out.append("%s(%s, %s)" % (op, render(x), render(y)))
+        else:
+            out.append(render(q))
+    go(t)
+    return sorted(out)
+
+
+def _option_closure(ctx, c):
+    """a closure `|x| cond(x).then_some(value(x))` (any spelling: then_some / then / if-else / match): returns
+    ([canonical conjuncts of cond], rendered value), in the enclosing function's vocabulary with the element as $x"""
+    if not (c[0] == "agg" and c[1].startswith("closure:")):
+        return None
+    cdef = c[1][len("closure:"):]
+    if cdef not in ctx.facts.bodies:
+        return None
+    cb = ctx.ibody(cdef)
+
+    def tr(t):
+        return mir.subst(mir.in_closure(ctx.facts, c, t), lambda q: _X if q == ("cparam", 1) else None)
+    some, none = [], []
+    for g, t, bi in cb.expanded_cases(0):
+        if t[0] == "agg" and t[1].endswith("Option::Some"):
+            some.append((g, t))
+        elif t[0] == "agg" and t[1].endswith("Option::None"):
+            none.append((g, t))
+        else:
+            return None
+    if len(some) != 1 or len(some[0][0]) != 1:
+        return None
+    conj = next(iter(some[0][0]))
+    atoms_ = []
+    for a in conj:
+        a2 = (a[0], tr(a[1])) + tuple(a[2:])
+        atoms_.append(canon_atom(a2))
+    return sorted(atoms_), render(tr(some[0][1][3][0]))
+
+
+def _bool_closure(ctx, c):
+    """canonical conjuncts under which a predicate closure returns true (single-conjunction predicates only)"""
+    if not (c[0] == "agg" and c[1].startswith("closure:")):
+        return None
+    cdef = c[1][len("closure:"):]
+    if cdef not in ctx.facts.bodies:
+        return None
+    cb = ctx.ibody(cdef)
+
+    def tr(t):
+        return mir.subst(mir.in_closure(ctx.facts, c, t), lambda q: _X if q == ("cparam", 1) else None)
+    cases = cb.expanded_cases(0)
+    if len(cases) == 1 and cases[0][0] == frozenset([frozenset()]):
+        return _pred_conj(ctx, tr(cases[0][1]))
+    true_cases = [(g, t) for g, t, bi in cases if not (t[0] == "const" and t[1] in ("0", "false"))]
+    if len(true_cases) == 1 and len(true_cases[0][0]) == 1:
+        g, t = true_cases[0]
+        out = [canon_atom((a[0], tr(a[1])) + tuple(a[2:])) for a in next(iter(g))]
+        if not (t[0] == "const" and t[1] in ("1", "true")):
+            out += _pred_conj(ctx, tr(t))
+        return sorted(out)
+    return None
+
+
+def pipeline(ctx, term, depth=0):
+    """(source, stages, sink) of a lazy iterator expression, normalised:
+       filter_map(|x| p(x).then_some(g(x)))  ==  filter(p).map(g);   find_map(f) == filter_map(f) + first;
+       find(p).map(g) == filter(p).map(g) + first;   flat_map(|x| inner(x).st..) == flat(inner).st..  (st not using x);
+       .iter() / .into_iter() / .cloned() / .copied() are transparent.
+    stages: [("filter", [conjuncts]) | ("map", rendered) | ("filter_map", rendered) | ("flat", rendered inner source)]"""
+    rev = []
+    sink = None
+    t = term
+    for _ in range(40):
+        while t[0] == "mutated":
+            t = t[1]
+        if t[0] != "call" or not t[2]:
+            break
+        name = mir._strip_generics(t[1]).rsplit("::", 1)[-1]
+        is_iter = "Iterator::" in t[1] or "IntoIterator::" in t[1] or "::iter" in t[1] or "Itertools" in t[1]
+        recv = t[2][0]
+        if name in _PASS and len(t[2]) == 1:
+            t = recv
+            continue
+        if name == "map" and "Option::" in t[1] and len(t[2]) == 2:
+            # Option::map over a `find`: a map stage before taking the first element
+            inner = recv
+            while inner[0] == "mutated":
+                inner = inner[1]
+            if inner[0] == "call" and mir._strip_generics(inner[1]).rsplit("::", 1)[-1] in ("find", "find_map", "next"):
+                r = apply_callable(ctx, t[2][1])
+                if r is None:
+                    break
+                rev.append(("map", render(r)))
+                t = recv
+                continue
+            break
+        if not is_iter:
+            break
+        if name in ("map", "filter", "filter_map", "find", "find_map", "flat_map") and len(t[2]) == 2:
+            r = apply_callable(ctx, t[2][1])
+            if r is None:
+                break
+            if name in ("find", "find_map"):
+                sink = "first"
+            if name == "map":
+                rev.append(("map", render(r)))
+            elif name in ("filter", "find"):
+                pc = _bool_closure(ctx, t[2][1])
+                rev.append(("filter", pc if pc is not None else _pred_conj(ctx, r)))
+            elif name in ("filter_map", "find_map"):
+                fm = _option_closure(ctx, t[2][1])
+                if fm is not None:
+                    rev.append(("map", fm[1]))
+                    rev.append(("filter", fm[0]))
+                else:
+                    rev.append(("filter_map", render(r)))
+            elif name == "flat_map":
+                isrc, istages, isink = pipeline(ctx, r, depth + 1) if depth < 3 else (r, [], None)
+                for st in reversed(istages):
+                    rev.append(st)
+                rev.append(("flat", render(isrc)))
+            t = recv
+            continue
+        if name in ("collect", "next", "last", "count") and len(t[2]) == 1:
+            sink = sink or name
+            t = recv
+            continue
+        break
+    return t, list(reversed(rev)), sink
+
+
+def first_match(ctx, term):
+    """`term` = payload taken from the first element a pipeline yields (`SRC.find_map(f)` / `SRC.find(p).map(g)` / with the
+    Option::map inlined: `SRC.find(p).as:Some.0.<proj>`): returns (rendered collection, filter conjuncts, rendered value as
+    a function of the matching element $x) or None"""
+    rest = ()
+    t = term
+    if t[0] == "proj":
+        rest = tuple(t[2])
+        t = t[1]
+    if rest[:2] != ("as:Some", "0"):
+        return None
+    rest = rest[2:]
+    while t[0] == "mutated":
+        t = t[1]
+    if t[0] != "call" or mir._strip_generics(t[1]).rsplit("::", 1)[-1] not in ("find", "find_map", "next"):
+        return None
+    src, stages, sink = pipeline(ctx, t)
+    filt = sorted(x for st in stages if st[0] == "filter" for x in st[1])
+    maps = [st[1] for st in stages if st[0] == "map"]
+    if any(st[0] not in ("filter", "map") for st in stages) or len(maps) > 1:
+        return None
+    val = maps[0] if maps else "$x"
+    for e in rest:
+        val = val + "." + e
+    return render(strip_iter(src)), filt, val
